@@ -379,6 +379,9 @@ pub fn spawn_supervised<T: Send + 'static>(name: &str, f: impl FnOnce() -> T + S
     Supervised { handle, tid }
 }
 impl<T> Supervised<T> {
+    pub fn is_finished(&self) -> bool {
+        self.handle.is_finished()
+    }
     /// Join; Err(description) if the thread is blocked for good (it is leaked).
     pub fn join_or_blocked(self, window: std::time::Duration) -> Result<std::thread::Result<T>, String> {
         let mut mark: Option<(std::time::Instant, u64)> = None;
